@@ -58,7 +58,8 @@ CLAIMED.update(
             "code shape: the in-place splice in MutationOperator._generic_visit_list/_generic_visit_real_node is undone on every exit "
             "including GeneratorExit at the yield; none of the ~75 mutate_* visitors writes, deletes or calls a mutating method through its "
             "node parameter or an alias of a part of it; mutation_count, _select_mutations and _generate_all_mutations enumerate the same "
-            "unfiltered expression over self.operators; regenerated operator generators are exhausted before the next mutation is applied. "
+            "unfiltered expression over self.operators; regenerated operator generators are exhausted before the next mutation is applied; a position bound by enumerate(E) subscript-stores only into the list E "
+            "enumerates (itself or a plain copy); a mutator class with its own mutate() has its own (or the generic) mutation_count - the inherited first-order count of HighOrderMutator is a known finding. "
             "That every mutant differs only at its mutated nodes, and sampling/reordering correctness, are value-level and not decided.",
             "Trusts the CFG builder; alias analysis is flow-insensitive within one visitor (names only).",
             "DESIGN.md §3 C28",
@@ -224,7 +225,8 @@ CLAIMED.update(
             "deletes only elements of _created through the loop variable and clears the set; every patch is entered on the exit stack; _is_foreign is `exists and not created` with "
             "only the isolation's own temporary directory exempt; the tracked wrappers, interpreted around stubs that carry the signatures of the real os / shutil / pathlib callables, test, "
             "record and forget exactly the values python binds to the path parameters for positional, keyword and mixed calls, and the table's indices name the src / dst / path parameters of "
-            "those signatures; _abspath of a relative name follows the working directory across a chdir with the memoisation of helpers modelled. File-system effects through APIs that are not "
+            "those signatures; _abspath of a relative name follows the working directory across a chdir with the memoisation of helpers modelled; _is_write_mode, interpreted over every mode string open() accepts "
+            "(r/w/a/x, +, b/t in any order), answers write exactly for the modes that can change or create the file. File-system effects through APIs that are not "
             "in the patch table (os.symlink, os.link, os.truncate, dir_fd-relative calls inside shutil.rmtree) are not decided.",
             "Trusts the CFG builder; correlation between the refuse-condition and the record-condition is by identical conjunct text over names that are not reassigned.",
             "DESIGN.md §3 C29",
@@ -288,7 +290,8 @@ CLAIMED.update(
             "zero, inf, nan), and parse_literal applied to the very term the renderer built returns the value (the parser accepts exactly the shapes the renderer emits); the ML twin "
             "ml_value_to_cst agrees on the numeric partition; generate / mutate / parse / render dispatch over the same primitive types with bool before int; no renderer is memoised; "
             "generate_literal, interpreted for the 11 requested types under configurations with maximum sizes 0 / 1 / default and scripted lowest / highest / seeded draws (randrange with "
-            "its empty-range error modelled), yields without raising valid tokens that evaluate to a value of the requested type within the configured size. Mutation draws are not decided.",
+            "its empty-range error modelled), yields without raising valid tokens that evaluate to a value of the requested type within the configured size; MLTestFactory._mutated_ml_expr, interpreted for tuple / list / nested ndarray payloads, scalars and allowed values with the numeric mutation stubbed, renders a literal "
+            "that evaluates to the mutated value in the structure the statement is bound to. Mutation draws are not decided.",
             "Trusts sa/engine/peval.py and sa/engine/cstterm.py.",
             "DESIGN.md §3 C23",
         ),
@@ -338,7 +341,9 @@ CLAIMED.update(
             "model type graph, giving 3 x 1089 answers. Checked on them: reflexivity, transitivity of all closing chains without Any, everything below Any, union subtype iff all members "
             "(maybe: some member), instance subsumption == subclass relation of the model, strict implies maybe, a distance is defined only towards a maybe-subtype, distance 0 to itself. "
             "Findings are grouped by law and type-shape signature; the two signatures that fail on the unchanged tree and are pinned by the existing tests are listed as known findings. "
-            "Shape: Any is tested first; the maybe visitor differs from the strict one only in the union arm (any vs all). Uniformity across types of the same shape is assumed.",
+            "Shape: Any is tested first; the maybe visitor differs from the strict one only in the union arm (any vs all). A non-union type is a subtype of a union exactly when it is one of some member "
+            "- strictly for is_subtype, leniently for is_maybe_subtype, with unions nested in tuples in the universe; the inheritance graph gets its edges from each analysed class's own `__bases__` "
+            "(never an inheritable attribute such as __orig_bases__ read through getattr), in the direction base -> class. Uniformity across types of the same shape is assumed.",
             "Trusts sa/engine/peval.py (class instantiation, method dispatch, isinstance on representatives) and the model graph of sa/checks/_typemodel.py.",
             "DESIGN.md §3 C25",
         ),
@@ -349,7 +354,8 @@ CLAIMED.update(
             "source; the disagreements present on the unchanged tree (primitive requests, tuple/None requests vs Any, covariant generics) are listed as known findings by shape signature, "
             "any other signature is reported. Cache coherence by code shape: every lru_cache'd TypeSystem method is cleared by _clear_query_caches and every writer of graph edges reaches "
             "it; clear_generator_cache clears every memoised method of GeneratorProvider and its subclasses; update_return_type accompanies a generator move by clear_generator_cache() "
-            "and get_all_generatable_types.cache_clear(). Which generator is finally selected is not decided.",
+            "and get_all_generatable_types.cache_clear(); where a caller updates in place a collection that a provider accessor handed out (and does nothing else with it), the accessor returns "
+            "the stored bucket itself, not a copy. Which generator is finally selected is not decided.",
             "Trusts sa/engine/peval.py, the model graph, and the CFG builder.",
             "DESIGN.md §3 C26",
         ),
@@ -400,7 +406,9 @@ CLAIMED.update(
             "the predicate entry and their sum; CoverageEntry / LineAnnotation addition is component-wise and only for the same line; branch_coverage / line_coverage are "
             "compute_branch_coverage / compute_line_coverage on analyze_results of the last result of every test case; per predicate 2 existing branches and one covered per zero "
             "distance VALUE (items membership), per branch-less code object 1 existing, covered iff executed - the factors compute_branch_coverage uses; the source is read from the "
-            "configured module at report time and nothing in the report module is memoised; the Cobertura totals add both branch kinds. Agreement of line ids with line numbers when "
+            "configured module at report time and nothing in the report module is memoised; the Cobertura totals add both branch kinds, and the XML renderer, interpreted with ElementTree modelled over 8 "
+            "kinds of lines, lists a line iff it carries anything and gives hits=1 exactly when the suite covers something of it; in both chromosome runners storing a fresh execution result clears "
+            "the changed flag on every path, so all coverage functions and the report read the same executions. Agreement of line ids with line numbers when "
             "several code objects share a source line is not decided.",
             "Trusts sa/engine/peval.py (dataclass instantiation, operator dispatch) and python's ast.",
             "DESIGN.md §3 C35",
@@ -434,7 +442,8 @@ CLAIMED.update(
             "Decides the mechanism that keeps an abandoned execution from polluting later results: every ExecutionTracer method that mutates the trace is wrapped by _early_return or "
             "calls self.check() before its first write, undecorated private writers are reachable only from such methods and not from outside the class; the wrapper returns when disabled, "
             "then calls check(), which raises TracingAbortedException exactly when the current thread is not the recorded owner; __enter__ records and stop() revokes ownership - and the four methods, interpreted over schedules of two execution threads and the executor, abort exactly the threads that do not own the tracer, "
-            "an abandoned thread that unwinds later never revoking the ownership of the thread that runs by then; every "
+            "an abandoned thread that unwinds later never revoking the ownership of the thread that runs by then; an executor that runs a test case twice per call (type tracing) reaches the "
+            "second run only where `not <first result>.timeout` is established; every "
             "trace mutation goes through self._thread_local_state.trace of a threading.local subclass and no plain attribute of the tracer holds the current trace; on every exec path a "
             "TracingAbortedException handler that re-raises or records the abort precedes any BaseException / bare handler; the executor joins its daemon thread with timeouts that are "
             "the configured maximum or a min() containing it and, interpreted for test cases of size 0, 1, 3 and 1000, positive (thread and subprocess executors), stops the tracer when the thread is still alive, answers with a fresh ExecutionResult(timeout=True) and uses a fresh result "
@@ -456,7 +465,8 @@ CLAIMED.update(
             "every ExecutionResult field that can carry SUT objects (plain int/bool fields exempt by annotation); interpreting clone() of all five reference-assertion classes for 3 sources "
             "(plain, one and two attribute levels) x 3 identity/empty memos shows source and payload unchanged; every attribute of TestCaseExecutor that a setter can change after construction "
             "and that the execution path reads (observers, remote observers, the instrument flag) is handed to the child by _setup_subprocess_execution, and the child uses every parameter it "
-            "receives. Equality of the two executions themselves is not decided.",
+            "receives; _fix_assertion_trace, interpreted over a trace with assertions at binding and non-binding positions, re-adds every assertion at its position with its source renamed "
+            "through the bindings. Equality of the two executions themselves is not decided.",
             "Trusts sa/engine/peval.py (class instantiation incl. super()), python's ast.",
             "DESIGN.md §3 C31",
         ),
@@ -473,7 +483,9 @@ CLAIMED.update(
             "(pytest.approx, the type-name f-string, complex(...), attribute-path receivers for == and len) are known findings, any other failing shape is reported. The seed parser's "
             "per-function filter must consist of the FunctionDef test and the name-prefix test only (the exporter emits decorated xfail tests named test_<idx>), and the normaliser must "
             "handle the exporter's import idiom; every CST visitor of the deserializer that treats Names as variable references (collectors, the SUT-reference normaliser, the local renamer) "
-            "exempts the keyword of call arguments and the attribute name of attribute accesses, as its siblings do (cross-check of implementations walking the same trees). Round trip of "
+            "exempts the keyword of call arguments and the attribute name of attribute accesses, as its siblings do (cross-check of implementations walking the same trees); a parsed function is "
+            "kept iff it has statements (a tally of dispositions must name every ADMITTED* member); the parser's arm for expression statements refuses none, since the exporter demotes any unused "
+            "assignment to a bare expression. Round trip of "
             "ordinary statements against a test cluster is not decided.",
             "Trusts sa/engine/peval.py, sa/engine/cstterm.py and the modelling of cst.parse_expression / code generation for names, attribute chains and literals.",
             "DESIGN.md §3 C24",
